@@ -31,13 +31,166 @@ var c01Vals = []interface{}{
 	math.NaN(), 0.0, math.Copysign(0, -1), // 20: not equal to itself; 21/22: equal as map keys, different text
 	map[interface{}]interface{}{"a": map[interface{}]interface{}{"b": 1.0}}, []interface{}{map[interface{}]interface{}{"a": 1.0}},
 	map[interface{}]interface{}{"a": []interface{}{1.0}}, map[interface{}]interface{}{"a": map[interface{}]interface{}{"b": 1.0}}, // nested; 26 = 23
+	// 27..: same text, different content; nil vs empty; int vs float; upper case
+	[]interface{}{"1"}, map[interface{}]interface{}{"a": "1"}, []interface{}{1.0, 2.0}, []interface{}{"1 2"},
+	[]interface{}(nil), map[interface{}]interface{}(nil), 1, "X", []interface{}{[]interface{}(nil)},
+	// 36, 37: what [1] / [2] and {"a":1} become when the program changes the variable after the declaration
+	[]interface{}{"changed3"}, map[interface{}]interface{}{"a": 1.0, "changed": 1.0},
+}
+
+// c01EqualAsIs is the comparison the code applies to lists and maps today (reflect.DeepEqual's view): like
+// c01Equal, but a nil list/map differs from an empty one at every level
+func c01EqualAsIs(a, b interface{}) bool {
+	switch av := a.(type) {
+	case []interface{}:
+		bv, ok := b.([]interface{})
+		if !ok || len(av) != len(bv) || (av == nil) != (bv == nil) {
+			return false
+		}
+		for i := range av {
+			if !c01EqualAsIs(av[i], bv[i]) {
+				return false
+			}
+		}
+		return true
+	case map[interface{}]interface{}:
+		bv, ok := b.(map[interface{}]interface{})
+		if !ok || len(av) != len(bv) || (av == nil) != (bv == nil) {
+			return false
+		}
+		for k, v := range av {
+			w, ok := bv[k]
+			if !ok || !c01EqualAsIs(v, w) {
+				return false
+			}
+		}
+		return true
+	}
+	return c01Equal(a, b)
+}
+
+// c01AsIsClass is the class of table value i under c01EqualAsIs
+func c01AsIsClass(i int) int {
+	for j := 0; j < i; j++ {
+		if c01EqualAsIs(c01Vals[j], c01Vals[i]) {
+			return j
+		}
+	}
+	return i
+}
+
+// c01Changed is the value a list/map pattern variable holds after the program changed it
+// (list: first element replaced by a text that names the declared class, so that different patterns stay
+// different; map: one entry added); ok is false where the program leaves it alone
+func c01Changed(v interface{}, cls int) (interface{}, bool) {
+	switch val := v.(type) {
+	case []interface{}:
+		if len(val) == 0 {
+			return nil, false
+		}
+		out := append([]interface{}{}, val...)
+		out[0] = fmt.Sprintf("changed%d", cls)
+		return out, true
+	case map[interface{}]interface{}:
+		if len(val) == 0 {
+			return nil, false
+		}
+		out := map[interface{}]interface{}{}
+		for k, x := range val {
+			out[k] = x
+		}
+		out["changed"] = 1.0
+		return out, true
+	}
+	return nil, false
+}
+
+// c01TokClass is the class number of a value token
+func c01TokClass(tok string) int {
+	var cls int
+	fmt.Sscanf(tok[1:], "%d", &cls)
+	return cls
+}
+
+// c01ChangedTok adds the suffix m<class> to the token of a list/map pattern that comes from a variable
+func c01ChangedTok(tok string) string {
+	if tok[0] != 'D' {
+		return tok
+	}
+	ch, ok := c01Changed(c01TokVal(tok), c01TokClass(tok))
+	if !ok {
+		return tok
+	}
+	for j := range c01Vals {
+		if j != c01NaN && c01EqualAsIs(c01Vals[j], ch) {
+			return fmt.Sprintf("%sm%d", tok, c01AsIsClass(j))
+		}
+	}
+	var idx int
+	fmt.Sscanf(tok[strings.Index(tok, "i")+1:], "%d", &idx)
+	return fmt.Sprintf("%sm%d", tok, 2000+idx) // a value no event carries
+}
+
+// c01Equal is the equality of ECAL values the property means, decided structurally and independently of
+// the primitives the code uses: lists element by element, maps entry by entry (nil and empty alike),
+// everything else by Go's == on values of the same dynamic type
+func c01Equal(a, b interface{}) bool {
+	switch av := a.(type) {
+	case []interface{}:
+		bv, ok := b.([]interface{})
+		if !ok || len(av) != len(bv) {
+			return false
+		}
+		for i := range av {
+			if !c01Equal(av[i], bv[i]) {
+				return false
+			}
+		}
+		return true
+	case map[interface{}]interface{}:
+		bv, ok := b.(map[interface{}]interface{})
+		if !ok || len(av) != len(bv) {
+			return false
+		}
+		for k, v := range av {
+			w, ok := bv[k]
+			if !ok || !c01Equal(v, w) {
+				return false
+			}
+		}
+		return true
+	case float64:
+		bv, ok := b.(float64)
+		return ok && av == bv
+	case string:
+		bv, ok := b.(string)
+		return ok && av == bv
+	case bool:
+		bv, ok := b.(bool)
+		return ok && av == bv
+	case int:
+		bv, ok := b.(int)
+		return ok && av == bv
+	case nil:
+		return b == nil
+	}
+	panic(fmt.Sprintf("c01Equal: value of type %T outside the universe", a))
+}
+
+// c01Deep says whether a value is a list or a map (cannot be a Go map key)
+func c01Deep(v interface{}) bool {
+	switch v.(type) {
+	case []interface{}, map[interface{}]interface{}:
+		return true
+	}
+	return false
 }
 
 const c01NaN, c01PosZero, c01NegZero = 20, 21, 22
 
 var c01NaNCount int
 
-var c01Regex = []string{"^x", "1", `^\[`, "nil", ".*", "^$", "a:1", "^(true|2)$"}
+var c01Regex = []string{"^x", "1", `^\[`, "nil", ".*", "^$", "a:1", "^(true|2)$", "^X", "é"}
 var c01RegexC []*regexp.Regexp
 
 func c01Tok(i int) string {
@@ -51,14 +204,17 @@ func c01Tok(i int) string {
 		return fmt.Sprintf("H%di%d", 1000+c01NaNCount, i)
 	}
 	for j := 0; j < i; j++ {
-		if reflect.DeepEqual(c01Vals[j], v) {
+		if c01Equal(c01Vals[j], v) {
 			cls = j
 			break
 		}
 	}
 	k := "H"
-	if !reflect.TypeOf(v).Comparable() {
+	if c01Deep(v) {
 		k = "D"
+	}
+	if a := c01AsIsClass(i); a != cls {
+		return fmt.Sprintf("%s%di%da%d", k, cls, i, a)
 	}
 	return fmt.Sprintf("%s%di%d", k, cls, i)
 }
@@ -72,8 +228,8 @@ func c01TokVal(t string) interface{} {
 		n, _ := strconv.Atoi(t[1:])
 		return c01RegexC[n]
 	}
-	n, err := strconv.Atoi(t[strings.Index(t, "i")+1:])
-	if err != nil {
+	var n int
+	if _, err := fmt.Sscanf(t[strings.Index(t, "i")+1:], "%d", &n); err != nil {
 		panic("bad value token " + t)
 	}
 	return c01Vals[n]
@@ -93,11 +249,14 @@ type c01Rule struct {
 }
 
 type c01Event struct {
-	name  string
-	kind  []string
-	state []c01KV
+	name     string
+	kind     []string
+	state    []c01KV
+	nilState bool // NewEvent(name, kind, nil); such an event is recognised by its name (unique in the case)
+	nilKind  bool // NewEvent(name, nil, state)
 	// ECAL level: an event added by a sink (parentEv >= 0: rule parentRule adds it while handling event
 	// parentEv), with its own scope map (ownScope) or, without one, as a child of the running cascade
+	detached   bool // the sink adds it from inside a loop (fresh instance state: no parent monitor)
 	child      bool
 	parentEv   int
 	parentRule int
@@ -110,6 +269,7 @@ type c01Case struct {
 	mode     string   // w: AddEventAndWait one by one; a: AddEvent all, then Finish
 	sched    []string // order of AddRule (r<i>), events (e<i>) and Reset (R); empty: all rules, then all events
 	failOn   string   // "": default of the level; "0"/"1": SetFailOnFirstErrorInTriggerSequence
+	mutate   bool     // ECAL level: list/map patterns are variables which the program changes after the sink declarations
 	failing  []int    // indexes of the rules whose action returns an error / whose sink raises
 	level    string   // "": engine API; e: ECAL sinks + addEvent / addEventAndWait (c01ecal.go)
 	order    string   // p: processor first (a worker panic kills the process: CRASH); i: index first (a panic is recovered: PANIC)
@@ -155,9 +315,16 @@ func c01ClassTok(t string) string {
 func (c *c01Case) encode() string {
 	var rs, es []string
 	rxIDs := map[int]bool{}
-	for _, r := range c.rules {
+	for ri, r := range c.rules {
 		st := "N"
 		if !r.stateNil {
+			if c.mutate && c.level == "e" {
+				for k := range r.state {
+					if !strings.Contains(r.state[k].tok, "m") {
+						c.rules[ri].state[k].tok = c01ChangedTok(r.state[k].tok)
+					}
+				}
+			}
 			st = c01KVs(r.state)
 			for _, kv := range r.state {
 				if kv.tok[0] == 'X' {
@@ -185,8 +352,17 @@ func (c *c01Case) encode() string {
 		}
 		e := c.events[ei]
 		fields := []string{hx(e.name), c01List(e.kind), c01KVs(e.state)}
+		if e.nilKind {
+			fields[1] = "N"
+		}
+		if e.nilState {
+			fields[2] = "N"
+		}
 		if e.child {
 			sc, par := "-", fmt.Sprintf("%d.%d", e.parentEv, e.parentRule)
+			if e.detached {
+				par += ".d"
+			}
 			if e.ownScope {
 				sc = c01KVs(e.scope)
 			}
@@ -195,6 +371,9 @@ func (c *c01Case) encode() string {
 		es = append(es, strings.Join(fields, ";"))
 		for _, kv := range e.state {
 			valToks[c01ClassTok(kv.tok)] = kv.tok
+			if a := strings.Index(kv.tok, "a"); a > 0 { // the class under the code's comparison has its own entry
+				valToks[kv.tok[:1]+kv.tok[a+1:]] = kv.tok
+			}
 		}
 	}
 	// truth table of Go's regexp for the (regex, value) pairs of the case
@@ -237,6 +416,9 @@ func (c *c01Case) encode() string {
 	}
 	if c.failOn != "" {
 		lv += "f=" + c.failOn + " "
+	}
+	if c.mutate {
+		lv += "u=1 "
 	}
 	if len(c.failing) > 0 {
 		var fi []string
@@ -291,6 +473,8 @@ func c01Decode(payload string) *c01Case {
 			c.level = v
 		case "z":
 			c.sched = strings.Split(v, ",")
+		case "u":
+			c.mutate = v == "1"
 		case "f":
 			c.failOn = v
 		case "g":
@@ -330,7 +514,17 @@ func c01Decode(payload string) *c01Case {
 			}
 			for _, es := range strings.Split(v, "|") {
 				p := strings.Split(es, ";")
-				e := c01Event{name: unhx(p[0]), kind: c01UnList(p[1]), state: c01UnKVs(p[2])}
+				e := c01Event{name: unhx(p[0])}
+				if p[1] == "N" {
+					e.nilKind = true
+				} else {
+					e.kind = c01UnList(p[1])
+				}
+				if p[2] == "N" {
+					e.nilState = true
+				} else {
+					e.state = c01UnKVs(p[2])
+				}
 				if len(p) == 5 {
 					e.child = true
 					if p[3] != "-" {
@@ -338,6 +532,7 @@ func c01Decode(payload string) *c01Case {
 						e.scope = c01UnKVs(p[3])
 					}
 					fmt.Sscanf(p[4], "%d.%d", &e.parentEv, &e.parentRule)
+					e.detached = strings.HasSuffix(p[4], ".d")
 				}
 				c.events = append(c.events, e)
 			}
@@ -376,12 +571,20 @@ func (r *c01Rule) build(action engine.RuleAction) *engine.Rule {
 	return er
 }
 
-func (e *c01Event) build() *engine.Event {
-	st := map[interface{}]interface{}{}
-	for _, kv := range e.state {
-		st[kv.key] = c01TokVal(kv.tok)
+// build creates the event; its index travels in the state entry "#i" (no rule asks for that key), so
+// that executions are attributed without relying on the identity of the *engine.Event object
+func (e *c01Event) build(i int) *engine.Event {
+	var st map[interface{}]interface{}
+	if !e.nilState {
+		st = map[interface{}]interface{}{"#i": i}
+		for _, kv := range e.state {
+			st[kv.key] = c01TokVal(kv.tok)
+		}
 	}
-	kind := append([]string{}, e.kind...)
+	var kind []string
+	if !e.nilKind {
+		kind = append([]string{}, e.kind...)
+	}
 	return engine.NewEvent(e.name, kind, st)
 }
 
@@ -436,7 +639,7 @@ func c01Run(payload string) string {
 			case 'r':
 				idx.AddRule(c.rules[n].build(nil).CopyAs(c.rules[n].name))
 			case 'e':
-				ev := c.events[n].build()
+				ev := c.events[n].build(n)
 				t := "0"
 				if idx.IsTriggering(ev) {
 					t = "1"
@@ -463,7 +666,24 @@ func c01Run(payload string) string {
 	}
 	runProc := func() procRes {
 		var mu sync.Mutex
-		rec := map[*engine.Event][]string{}
+		rec := map[int][]string{}
+		byName := map[string]int{}
+		for i := range c.events {
+			if c.events[i].nilState {
+				byName[c.events[i].name] = i
+			}
+		}
+		evIndex := func(e *engine.Event) int {
+			if st := e.State(); st != nil {
+				if i, ok := st["#i"].(int); ok {
+					return i
+				}
+			}
+			if i, ok := byName[e.Name()]; ok {
+				return i
+			}
+			return -1
+		}
 		proc := engine.NewProcessor(c.workers)
 		proc.SetFailOnFirstErrorInTriggerSequence(c.failOn == "1")
 		errs := make([]byte, len(c.rules))
@@ -499,7 +719,7 @@ func c01Run(payload string) string {
 				name, fails := c.rules[n].name, failing[n]
 				err := proc.AddRule(c.rules[n].build(func(p engine.Processor, m engine.Monitor, e *engine.Event, tid uint64) error {
 					mu.Lock()
-					rec[e] = append(rec[e], name)
+					rec[evIndex(e)] = append(rec[evIndex(e)], name)
 					mu.Unlock()
 					if fails {
 						return fmt.Errorf("action of %v fails", name)
@@ -513,7 +733,7 @@ func c01Run(payload string) string {
 				if proc.Stopped() {
 					proc.Start()
 				}
-				evs[n] = c.events[n].build()
+				evs[n] = c.events[n].build(n)
 				var m engine.Monitor
 				var err error
 				if c.mode == "c" {
@@ -582,7 +802,7 @@ func c01Run(payload string) string {
 		xs := make([]string, len(evs))
 		mu.Lock()
 		for i := range evs {
-			xs[i] = c01Names(rec[evs[i]])
+			xs[i] = c01Names(rec[i])
 		}
 		mu.Unlock()
 		return procRes{errs: errs, added: added, x: xs}
@@ -749,6 +969,20 @@ func c01Gen(g *Gen) {
 		}
 	}
 
+	// ---- the cache key is not of the established shape: search for two kinds sharing an entry
+	if v, _, _ := c01CacheKeyFact(); v != 0 {
+		for k := 0; k < 16; k++ {
+			c := &c01Case{mode: "w", rules: []c01Rule{mkRule("r", []string{"a.*", "*.t." + strconv.Itoa(k)}, nil, true)}, scope: globalScope}
+			for i := 0; i < 300; i++ {
+				c.events = append(c.events, c01Event{name: "e", kind: []string{"b", fmt.Sprintf("y%d_%d", k, i)}})
+			}
+			for i := 0; i < 300; i++ {
+				c.events = append(c.events, c01Event{name: "e", kind: []string{"a", fmt.Sprintf("x%d_%d", k, i)}})
+			}
+			emit(c, "cache-key-collision-search")
+		}
+	}
+
 	// ---- rules added between events: Finish, AddRule, Start, AddEvent (the cache must be dropped)
 	rAB, rAs, rB := mkRule("r0", []string{"a.b"}, nil, true), mkRule("r1", []string{"a.*"}, nil, true), mkRule("r2", []string{"b"}, nil, true)
 	rSup := mkRule("r3", []string{"a.b"}, nil, true)
@@ -787,6 +1021,49 @@ func c01Gen(g *Gen) {
 		emit(&c01Case{rules: []c01Rule{mkRule("r", []string{"a"}, c01St("k", V(vi)), false), mkRule("q", []string{"a"}, c01St("k", V(c01NegZero)), false),
 			mkRule("x", []string{"a"}, c01St("k", "X1"), false)}, scope: globalScope,
 			events: []c01Event{ev("e", "a", c01St("k", V(c01NaN))), ev("e", "a", c01St("k", V(c01PosZero))), ev("e", "a", c01St("k", V(c01NegZero)))}}, "corpus-nan-zero")
+	}
+
+	// ---- equality of state values: same text / different content, nil vs empty, int vs float
+	eqVals := []int{3, 27, 4, 28, 29, 30, 16, 31, 17, 32, 1, 33, 5, 15, 35}
+	{
+		var rs []c01Rule
+		var es []c01Event
+		for j, vi := range eqVals {
+			rs = append(rs, mkRule(fmt.Sprintf("v%02d", j), []string{"a"}, c01St("k", pat(V(vi))), false))
+			es = append(es, ev("e", "a", c01St("k", V(vi))))
+		}
+		for _, mode := range []string{"w", "a"} {
+			emit(&c01Case{mode: mode, rules: rs, scope: globalScope, events: es}, "corpus-value-equality")
+		}
+	}
+	// ---- nil event state and nil kind
+	{
+		rs := []c01Rule{mkRule("any", []string{"a"}, nil, true), mkRule("empty", []string{"a"}, nil, false),
+			mkRule("key", []string{"a"}, c01St("k", "A"), false), mkRule("star", []string{"*"}, nil, false)}
+		es := []c01Event{{name: "nil0", kind: []string{"a"}, nilState: true}, {name: "nil1", nilKind: true, nilState: true},
+			{name: "e", nilKind: true}, ev("e", "a", nil), {name: "nil2", kind: []string{"b"}, nilState: true}}
+		for _, mode := range []string{"w", "a"} {
+			emit(&c01Case{mode: mode, rules: rs, scope: globalScope, events: es}, "corpus-nil-state-kind")
+		}
+	}
+	// ---- strings are compared exactly: upper case, blanks, non-ASCII in kinds, scope steps, state keys, names, regexes
+	{
+		r1 := mkRule("r1", []string{"a.b", "é.*"}, c01St("k", "A"), false)
+		r1.scopes = []string{"p.q"}
+		r2 := mkRule("R1", []string{"A.b", "a .b", " a.b", "É.x"}, c01St("K", "A"), false)
+		r2.scopes = []string{"P.q"}
+		r3 := mkRule("sup", []string{"*.*"}, nil, true)
+		r3.supp = []string{"R1", "r1 "}
+		r4 := mkRule("rx", []string{"*.*"}, c01St("k", "X8"), false)
+		var es []c01Event
+		for _, k := range []string{"a.b", "A.b", "a .b", " a.b", "a.B", "é.x", "É.x", "e.x"} {
+			for _, st := range [][]c01KV{c01St("k", V(2)), c01St("K", V(2)), c01St("k", V(34)), c01St("k ", V(2))} {
+				es = append(es, ev("e", k, st))
+			}
+		}
+		for _, sc := range [][]c01KV{{{"p.q", "1"}}, {{"P.q", "1"}}, {{"p", "1"}, {"p.Q", "0"}}, {{"p ", "1"}, {"", "0"}}} {
+			emit(&c01Case{rules: []c01Rule{r1, r2, r3, r4}, scope: sc, events: es}, "corpus-exact-strings")
+		}
 	}
 
 	// ---- ECAL level (sinks + addEvent with a scope map)
@@ -947,13 +1224,13 @@ func c01Gen(g *Gen) {
 	if g.Thorough() {
 		nRandom, nBig = 40000, 1500
 	}
-	rsegs := []string{"a", "b", "c", "*", "", `a" "b`, "a b", "*a"}
-	keys := []string{"k", "l", "m", ""}
-	paths := []string{"", "p", "p.q", "p.q.r", "z", "p.z", ".", "p."}
+	rsegs := []string{"a", "b", "c", "*", "", `a" "b`, "a b", "*a", "A", "a ", " a", "é", "É", "B"}
+	keys := []string{"k", "l", "m", "", "K", "k ", "é"}
+	paths := []string{"", "p", "p.q", "p.q.r", "z", "p.z", ".", "p.", "P", "p.Q", "p .q", "é"}
 	rndKind := func(depth int) string {
 		var s []string
 		for i := 0; i < depth; i++ {
-			s = append(s, rsegs[g.R.Intn(4+g.R.Intn(5))])
+			s = append(s, rsegs[g.R.Intn(4+g.R.Intn(len(rsegs)-3))])
 		}
 		return strings.Join(s, ".")
 	}
@@ -1150,6 +1427,12 @@ func init() {
 		Run: c01Run,
 		// harness C01 -tool prog <payload>: the ECAL program of an ECAL-level case
 		Tool: func(args []string) int {
+			if len(args) == 2 && args[0] == "extract" {
+				return c01ExtractFacts(args[1])
+			}
+			if len(args) >= 1 && args[0] == "stress" {
+				return c01Stress(args[1:])
+			}
 			if len(args) == 2 && args[0] == "prog" {
 				fmt.Print(c01Program(c01Decode(args[1])))
 				return 0
